@@ -351,11 +351,9 @@ func vCacheLookupHarness(nslots int) {
 	// soundness and completeness for an arbitrary probe id
 	vAssert(vContains(ids, n, probe) == vRefLive(tb, key, vNowTick, probe), "lookup returns exactly the live ids recorded for this source (none of another source, none expired)")
 	vAssert(!vContains(ids, n, 0), "the reserved id 0 is never returned")
-	for i := 0; i < sourceUserCacheUsers; i++ {
-		for j := 0; j < i; j++ {
-			vAssert(!(i < n) || ids[i] != ids[j], "no id is returned twice")
-		}
-	}
+	pi, pj := vNondetInt("dup.i"), vNondetInt("dup.j")
+	vAssume(pj >= 0 && pj < pi && pi < sourceUserCacheUsers)
+	vAssert(!(pi < n) || ids[pi] != ids[pj], "no id is returned twice (any pair of positions)")
 }
 
 func vH_C07_cache_lookup()      { vCacheLookupHarness(3) }
